@@ -922,10 +922,10 @@ patch_out (program_t * prog, short *patches, size_t len)
   p = prog->program;
   while (len > 0)
     {
-      i = patches[--len];
+      i = (unsigned short) patches[--len];	/* program offsets are 16 bits unsigned */
       if (p[i] == F_SWITCH && p[i + 1] >> 4 != 0xf)
         {			/* string switch */
-          short offset, break_addr;
+          unsigned short offset, break_addr;
           char *s;
 
           /* replace strings in table with string table indices */
@@ -975,10 +975,10 @@ patch_in (program_t * prog, short *patches, size_t len)
   p = prog->program;
   while (len > 0)
     {
-      i = patches[--len];
+      i = (unsigned short) patches[--len];	/* program offsets are 16 bits unsigned */
       if (p[i] == F_SWITCH && p[i + 1] >> 4 != 0xf)
         {			/* string switch */
-          short offset, start, break_addr;
+          unsigned short offset, start, break_addr;
           char *s;
 
           /* replace string indices with string pointers */
